@@ -13,6 +13,7 @@ package sig
 import (
 	"encoding/json"
 	"fmt"
+	"net"
 	"os"
 	"path/filepath"
 	"runtime/debug"
@@ -96,6 +97,7 @@ func initProcess() {
 	once.Do(func() {
 		if Scheduled {
 			vrt.SetMode(vrt.Scheduled)
+			blockICE()
 		} else {
 			vrt.SetMode(vrt.Tasks)
 		}
@@ -113,6 +115,32 @@ func initProcess() {
 		}
 		baseDir = d
 	})
+}
+
+// blockICE keeps server-side PeerConnections from gathering any candidate:
+// the scheduler owns every goroutine that runs instrumented code, and a
+// candidate found by pion's own goroutines would call back into
+// rtpconn (sendICE -> webClient.write) from outside it.  The server is told
+// to use a single UDP port that the harness has already bound, so gathering
+// completes with no candidate and the callback returns at once.
+var iceBlockers []net.PacketConn
+
+func blockICE() {
+	for _, network := range []string{"udp4", "udp6"} {
+		pc, err := net.ListenPacket(network, ":0")
+		if err != nil {
+			continue
+		}
+		port := pc.LocalAddr().(*net.UDPAddr).Port
+		iceBlockers = append(iceBlockers, pc)
+		if network == "udp4" {
+			if pc6, err := net.ListenPacket("udp6", fmt.Sprintf(":%d", port)); err == nil {
+				iceBlockers = append(iceBlockers, pc6)
+			}
+			group.UDPMin, group.UDPMax = uint16(port), uint16(port)
+			return
+		}
+	}
 }
 
 // BaseDir returns the per-process sandbox (remove it at exit).
@@ -352,6 +380,9 @@ func (w *World) Disconnect(i int) Obs {
 	w.collect(&o)
 	return o
 }
+
+// WriterDies kills client i's websocket writer (see VerifClient.WriterDies).
+func (w *World) WriterDies(i int) { w.Clients[i].V.WriterDies() }
 
 // Tasks lists the pending detached goroutines.
 func (w *World) Tasks() []string {
